@@ -127,6 +127,7 @@ pub fn run(cx: &mut Ctx) {
             let t = random_ty(&mut rng, d, 8);
             let ws = vec![("W".to_string(), t.clone()), ("FLAG".to_string(), Ty::Bool)];
             let mut g = prober(cx, false);
+            g.rng = rng.clone();
             let mut arms = vec![];
             for skip in [0usize, 55] {
                 g.probe_skip_pct = skip;
